@@ -25,6 +25,7 @@ FAMILIES = {"num": ["i", "f"], "time": ["d", "t"], "bool": ["b"], "str": ["s"], 
             "bytes": ["y"], "delta": ["td"], "small": ["i8", "u8", "i"], "f32": ["f32", "f"], "ustr": ["u", "s"], "obool": ["ob"]}
 POOL = ["a", "b", "c", "d"]
 KINDS = ["f", "i", "b", "s", "u", "d", "t", "o", "td"]
+COMPAT = ["µg", "\u212bngstr\u00f6m", "\u2126", "ﬁeld", "ａ", "ｘ１", "ǆ", "ſ"]       # MICRO SIGN, ANGSTROM SIGN, OHM SIGN, ligature, full-width
 NESTED = ["a", "ab", "abc", "b", "bc", "rid", "_rid", "id", "_", ""]
 
 
@@ -83,6 +84,8 @@ def _single(draw, max_rows):
         how = draw(st.sampled_from(["fresh", "permute", "mixed"]))
         if how == "fresh":
             news = [f"n{j}" for j in range(k)]
+            if draw(st.integers(0, 2)) == 0:
+                news = list(draw(st.permutations(COMPAT)))[:k] + news[len(COMPAT):]
         elif how == "permute":
             news = list(draw(st.permutations(olds)))
         else:
@@ -101,6 +104,9 @@ def _single(draw, max_rows):
         how = draw(st.sampled_from(["fresh", "permute", "partial"]))
         if how == "fresh":
             plan["names"] = [f"n{j}" for j in range(len(names))]
+            if draw(st.booleans()):
+                # names that a Unicode normalisation would rewrite (compatibility characters): kept as given
+                plan["names"] = list(draw(st.permutations(COMPAT)))[:len(names)] + plan["names"][len(COMPAT):]
         elif how == "permute":
             plan["names"] = list(draw(st.permutations(names)))
         else:
@@ -132,6 +138,10 @@ def _single(draw, max_rows):
             else:
                 pairs.append([target, {"how": "callable_rid"}])
         plan["pairs"] = pairs
+        cand = [c["name"] for c in fp["cols"] if c["kind"] in ("i", "s", "b", "f", "d", "i8", "u8")]
+        if n and cand and all(s["how"].startswith("callable") for _, s in pairs) and draw(st.integers(0, 2)) == 0:
+            # the same edit group-wise: every column the call does not name stays as it is, rows included
+            plan["grouped_by"] = draw(st.sampled_from(cand))
     return plan
 
 
@@ -358,7 +368,15 @@ def check(plan, ctx):
             else:
                 kw[target] = lambda x: x["_rid_"] * 2
                 exp[target] = ("int64", [2 * r for r in range(n)])
-        out = ctx.call("modify", lambda: data.modify(**kw))
+        if plan.get("grouped_by"):
+            g0 = tuple(data._group_colnames)
+            try:
+                out = ctx.call("grouped modify", lambda: data.group_by(plan["grouped_by"]).modify(**kw))
+            finally:
+                data._group_colnames = g0             # group_by marks its receiver by design: taken back
+            ctx.cls("modify_group_wise")
+        else:
+            out = ctx.call("modify", lambda: data.modify(**kw))
         exp_names = list(names) + [t for t in exp if t not in names]
         got = list(dict.keys(out))
         if got != exp_names:
